@@ -5,7 +5,7 @@ RULE = ('positions: seed families (perft suite, en-passant pins / discovered che
         'double check, mates, stalemate, 218-move position, clocks near 100) + random legal playouts (move-kind bias) + colour mirrors; '
         'one `pos` request each (both generators, both legality paths). non-trivial = at least 2 pseudo-legal moves; distinct = distinct positions')
 def run(ctx):
-    chesscore.run_property(ctx, 'Props/C01.v', ['C01:'], ['A', 'Q', 'L', 'LQ', 'C'],
+    chesscore.run_property(ctx, 'Props/C01.v', ['C01:'], ['AL', 'QL', 'C'],
         'the set of moves the engine treats as legal differs from the rules of chess (or the two legality paths differ)', RULE)
 def replay(ctx, path):
     return chesscore.replay_pos(ctx, path, 'Props/C01.v')
